@@ -26,7 +26,7 @@ func (e *Engine) ghostArr(st *State, name string, s Sort) *Term {
 	return e.tb.Const("G0!"+name, s)
 }
 
-var ghostSorts = map[string]Sort{"setbyteslen": SInt, "closed": SArrB, "sends": SArrI, "held": SArrB}
+var ghostSorts = map[string]Sort{"setbyteslen": SInt, "closed": SArrB, "sends": SArrI, "held": SArrB, "kvput": SArrB, "kvdel": SArrB, "kvapplied": SArrI, "kvbatch": SArrB}
 
 func (e *Engine) setGhost(st *State, name string, t *Term) {
 	st.Ghost[name] = t
@@ -301,6 +301,62 @@ func init() {
 		libSpecs[n] = func(e *Engine, st *State, fn *ssa.Function, args []Val, pos token.Pos, k Kont) {
 			e.nilCheck(st, args[0], pos, "atomic flag through nil pointer")
 			k(st, e.havocResults(st, fn.Signature, "atomic"))
+		}
+	}
+	// sorted key-value store (polycry.pt/poly-go/sortedkv): abstract. Tables, batches and iterators are opaque non-nil values;
+	// every operation may fail; the ghost sets "kvput"/"kvdel" record which keys were written / deleted (by key string).
+	libSpecs["polycry.pt/poly-go/sortedkv.NewTable"] = nonNilIface("kvtable")
+	kvp := "polycry.pt_poly-go_sortedkv."
+	for _, in := range []string{"Writer", "Batch", "Database"} {
+		for _, mn := range []string{"Put", "PutBytes", "Delete"} {
+			set := "kvput"
+			if mn == "Delete" {
+				set = "kvdel"
+			}
+			set2 := set
+			libIface[kvp+in+"."+mn] = func(e *Engine, st *State, c *ssa.CallCommon, recv Val, args []Val, pos token.Pos, k Kont) {
+				tb := e.tb
+				e.oblige(st, "nil", "", pos, tb.Neq(recv.ifTag(), tb.Int(0)), "store operation on nil writer")
+				cur := e.ghostArr(st, set2, SArrB)
+				e.setGhost(st, set2, tb.Store(cur, args[0].T[0], tb.True()))
+				k(st, e.havocResults(st, c.Signature(), "kv"))
+			}
+		}
+	}
+	for _, in := range []string{"Batcher", "Database"} {
+		libIface[kvp+in+".NewBatch"] = func(e *Engine, st *State, c *ssa.CallCommon, recv Val, args []Val, pos token.Pos, k Kont) {
+			tb := e.tb
+			e.oblige(st, "nil", "", pos, tb.Neq(recv.ifTag(), tb.Int(0)), "NewBatch on nil database")
+			res := e.havocResults(st, c.Signature(), "kvbatch")
+			e.assume(st, tb.Neq(res.ifTag(), tb.Int(0)))
+			cur := e.ghostArr(st, "kvbatch", SArrB)
+			e.setGhost(st, "kvbatch", tb.Store(cur, tb.App("kvkey", SInt, res.ifTag(), res.ifVal()), tb.True()))
+			k(st, res)
+		}
+	}
+	libIface[kvp+"Batch.Apply"] = func(e *Engine, st *State, c *ssa.CallCommon, recv Val, args []Val, pos token.Pos, k Kont) {
+		tb := e.tb
+		e.oblige(st, "nil", "", pos, tb.Neq(recv.ifTag(), tb.Int(0)), "Apply on nil batch")
+		cur := e.ghostArr(st, "kvapplied", SArrI)
+		key := tb.App("kvkey", SInt, recv.ifTag(), recv.ifVal())
+		e.setGhost(st, "kvapplied", tb.Store(cur, key, tb.Add(tb.Select(cur, key), tb.Int(1))))
+		k(st, e.havocResults(st, c.Signature(), "kv"))
+	}
+	for _, in := range []string{"Reader", "Database"} {
+		for _, mn := range []string{"Has", "Get", "GetBytes"} {
+			mn2 := mn
+			libIface[kvp+in+"."+mn] = func(e *Engine, st *State, c *ssa.CallCommon, recv Val, args []Val, pos token.Pos, k Kont) {
+				tb := e.tb
+				e.oblige(st, "nil", "", pos, tb.Neq(recv.ifTag(), tb.Int(0)), "read on nil store")
+				if mn2 == "GetBytes" {
+					ln := tb.Fresh("kv_len", SInt)
+					e.assume(st, tb.And(tb.Le(tb.Int(0), ln), tb.Le(ln, tb.BigInt(maxExisting))))
+					sl := e.allocSlice(st, types.Typ[types.Uint8], ln, ln)
+					k(st, Val{Elems: []Val{sl, e.freshVal(st, c.Signature().Results().At(1).Type(), "kv_err")}})
+					return
+				}
+				k(st, e.havocResults(st, c.Signature(), "kv"))
+			}
 		}
 	}
 	// hashing: the hasher is an opaque writer; Sum returns len(b) + 32 bytes that are an uninterpreted function of what was written
